@@ -116,6 +116,38 @@ func (h *HelloPingHandler) Send(dstIP netip.Addr) (notify <-chan struct{}, err e
 	h.sendLock.Lock()
 	defer h.sendLock.Unlock()
 
+	// Do not start an own request while a hello request or response of a remote
+	// router is being handled (and the other way around): a request that is on the
+	// wire but not registered yet is invisible to the request handler, which then
+	// serves the remote request without the simultaneous-setup tie-break.
+	h.handleLock.Lock()
+	defer h.handleLock.Unlock()
+
+	return h.send(dstIP)
+}
+
+// SendIfNeeded sends a hello message to the given destination, unless
+// encryption with it is set up by now. A caller that found no keys and decides
+// to start a key setup races with the handling of a hello request of that very
+// router by another worker: once that request has been served the keys are
+// there, and an own request would only re-key the remote a second time (and
+// leave both sides with different keys if its response is lost).
+func (h *HelloPingHandler) SendIfNeeded(dstIP netip.Addr) (notify <-chan struct{}, err error) {
+	h.sendLock.Lock()
+	defer h.sendLock.Unlock()
+	h.handleLock.Lock()
+	defer h.handleLock.Unlock()
+
+	if session := h.r.instance.State().GetSession(dstIP); session != nil && session.Encryption().IsSetUp() {
+		finished := make(chan struct{})
+		close(finished)
+		return finished, nil
+	}
+	return h.send(dstIP)
+}
+
+// send sends a hello message; the caller holds sendLock and handleLock.
+func (h *HelloPingHandler) send(dstIP netip.Addr) (notify <-chan struct{}, err error) {
 	// Check if we already have an active hello ping.
 	if pingState := h.getActive(dstIP); pingState != nil {
 		return pingState.notify, ErrAlreadyActive
